@@ -84,6 +84,7 @@ def returned_values(bi):
                     continue
                 expand(d[0], bi.T._of_def(t[1], d, 1), depth + 1)
             return
+        t = refine(bi, t)       # values read back from a carrier local (`break Some(x)` .. `Some(x) => Ready(x)`)
         kind, payload = classify(t)
         out.append((block, kind, payload, t))
 
@@ -95,6 +96,41 @@ def returned_values(bi):
         expand(b, t)
     bi._returned_values = out
     return out
+
+
+def refine(bi, t, depth=0):
+    """Variant-refined reading of values carried by a multi-definition local: inside the `V` arm of a match on
+    local L, `L@V.k` can only be field k of the definition of L that builds variant V - provided every live definition
+    of L is a literal aggregate and exactly one of them has variant V.  (`let completed = loop { .. break Some(x) ..
+    break None }; match completed { Some(x) => ..` reads x.)  Applied recursively; anything else is left alone."""
+    if not isinstance(t, tuple) or not t or depth > 8:
+        return t
+    if t[0] == "field" and isinstance(t[1], tuple) and t[1] and t[1][0] == "variant":
+        base = refine(bi, t[1][1], depth + 1)
+        v = t[1][2]
+        k = t[2]
+        if base[0] == "phi":
+            defs = []
+            for d in _live_defs(bi, base[1]):
+                defs.append(bi.T._of_def(base[1], d, 1))
+            aggs = [d for d in defs if d[0] == "agg" and isinstance(d[1], tuple) and len(d[1]) == 2]
+            if defs and len(aggs) == len(defs):
+                hit = [d for d in aggs if d[1][1] == v]
+                if len(hit) == 1 and isinstance(k, int) and k < len(hit[0][2]):
+                    return refine(bi, hit[0][2][k], depth + 1)
+        elif base[0] == "agg" and isinstance(base[1], tuple) and len(base[1]) == 2 and base[1][1] == v and isinstance(k, int) and k < len(base[2]):
+            return refine(bi, base[2][k], depth + 1)
+        return ("field", ("variant", base, v), k)
+    if t[0] == "field":
+        base = refine(bi, t[1], depth + 1)
+        if base[0] == "agg" and base[1] == "tuple" and isinstance(t[2], int) and t[2] < len(base[2]):
+            return refine(bi, base[2][t[2]], depth + 1)
+        if base[0] == "agg" and isinstance(base[1], tuple) and len(base[2]) == 1 and t[2] == 0 and base[1][0] == base[1][1]:
+            return refine(bi, base[2][0], depth + 1)      # newtype struct: Key(i).0 = i
+        return ("field", base, t[2]) + tuple(t[3:])
+    if t[0] == "agg":
+        return ("agg", t[1], tuple(refine(bi, x, depth + 1) for x in t[2])) + tuple(t[3:])
+    return t
 
 
 def returns_of(bi, *kinds):
@@ -129,6 +165,13 @@ def compare_tests(bi):
                 t = next(iter(ts))
                 if t[0] == "binop" and t[1] in CMP_BIN:
                     out.append((e, CMP_BIN[t[1]], t[2], t[3]))
+    # `match n { 0 => A, _ => B }`: an integer switch with one listed value is the comparison `n == 0`
+    for e in bi.switches:
+        if e["kind"] == "int" and len([k for k in e["edges"] if k != "otherwise"]) == 1 and e["edges"].get("otherwise") is not None:
+            v = [k for k in e["edges"] if k != "otherwise"][0]
+            if isinstance(v, int) and not e.get("negated"):
+                syn = dict(e, kind="bool", edges={True: e["edges"][v], False: e["edges"]["otherwise"]}, synthetic=True)
+                out.append((syn, "Eq", e["subject"], ("const", v)))
     # unsigned counters: `x < 1`, `x <= 0` say `x == 0`; `x >= 1`, `x > 0` say `x != 0`
     extra = []
     for e, o, x, y in out:
